@@ -66,8 +66,11 @@ class C17(Prop):
             evs = []
             for e in base:
                 evs += [e, ["q", "closed"]]
-            out.append(Case("time", rng.choice(["local", "threads"]), [("pipe", [pipe])], evs,
-                            {"kind": "time-" + mode}))
+            fl = rng.choice(["local", "threads"])
+            # thread-safe form: with the lock trace (hook H2) — `is_closed()` / `unsubscribe()` of a task handle can
+            # only speak for a running task if the task body runs inside the section of the handle's mutex
+            fields = ([("locktrace", ["1"])] if fl == "threads" else []) + [("pipe", [pipe])]
+            out.append(Case("time", fl, fields, evs, {"kind": "time-" + mode}))
         # composite subscriptions on their own: append / unsubscribe / is_closed histories
         out += cg.cases(random.Random(seed + 1717), tier, MODEL)
         return out
@@ -88,6 +91,10 @@ class C17(Prop):
     def oracle(self, case, lines, model_lines=None):
         if case.suite == "composite":
             return cg.oracle(case, lines)
+        from .c19 import handle_section_failure
+        f = handle_section_failure(case, lines)
+        if f:
+            return f
         closed = False
         unsubbed = False
         for k, e in enumerate(case.events):
